@@ -37,7 +37,10 @@ def worker(args, scratch):
             # the HOST refuses the relayed request with its own 401/403: that is the host's answer, not a denial by the proxy's rules
             return {"status": int(vid[-3:]), "headers": [("x-vf-echo", vid)], "body": b"host says no"}
         return wproxy.World.default_handler(name, req)
-    w = wproxy.World(scratch, runtime="multi:8", handler=handler)
+    # hook H3 in half of the shards: the status actor takes 0-3 ms per message (its task not being scheduled), which stretches the time between a
+    # request's connection-count message and its denial message; the status task (40 ms) may publish in between and must catch up afterwards
+    env = {"GPA_VERIF_DELAY": "actor_agent_status:300:3000", "GPA_VERIF_DELAY_SEED": str(args["shard"] + 21)} if args["shard"] % 2 == 1 else None
+    w = wproxy.World(scratch, runtime="multi:8", handler=handler, env=env)
     endpoint = args["endpoint"]
     ip, port = wproxy.DESTS[endpoint]
     status_dir = scratch + "/status"
@@ -62,7 +65,9 @@ def worker(args, scratch):
                 seq.append((ci, method, url, True if hf < 0.08 else (r.choice([401, 403]) if hf < 0.2 else False)))     # last: the host fails / refuses while answering this request
             reference_upstream = None
             for mode in ("allow-all", "enforce", "audit", "disabled"):
-                d = ALLOW_ALL if mode == "allow-all" else dict(doc, mode=mode, id="%s-%d-%s" % (endpoint, rs, mode))
+                # the host may spell the mode in any letter case
+                spelled = r.choice([mode, mode.capitalize(), mode.upper(), mode[:2].upper() + mode[2:]])
+                d = ALLOW_ALL if mode == "allow-all" else dict(doc, mode=spelled, id="%s-%d-%s" % (endpoint, rs, mode))
                 w.rules(endpoint, d)
                 w.shim.call("clear_summaries")
                 tag = "c11-%d-%d-%s" % (args["shard"], rs, mode)
